@@ -6,6 +6,7 @@ import (
 	"flag"
 	"fmt"
 	"os"
+	"os/exec"
 	"runtime/debug"
 	"sort"
 	"strconv"
@@ -187,6 +188,25 @@ func main() {
 		only := ""
 		if fs.NArg() > 0 {
 			only = fs.Arg(0)
+		}
+		if only == "" {
+			// one child process per property: every variant loads a whole program, and a single process for the
+			// whole corpus (460+ variants) outgrows the machine's memory
+			rc := 0
+			self, _ := os.Executable()
+			var ids []string
+			for id := range registry {
+				ids = append(ids, id)
+			}
+			sort.Strings(ids)
+			for _, id := range ids {
+				cmd := exec.Command(self, "mutants", "-repo", *repo, id)
+				cmd.Stdout, cmd.Stderr = os.Stdout, os.Stderr
+				if err := cmd.Run(); err != nil {
+					rc = 1
+				}
+			}
+			os.Exit(rc)
 		}
 		os.Exit(runMutants(*repo, only, true))
 	case "dumpfacts":
